@@ -190,7 +190,7 @@ def cap_cases(draw):
         c = [0.0, c[1]]             # documented: ra within [0,360)
     return {"centre": c, "rad": draw(RADIUS), "n": draw(st.one_of(st.integers(1, 20), st.integers(1, 300))),
             "dorot": draw(st.booleans()), "get_radius": draw(st.booleans()), "rng": draw(RNG), "seed": draw(SEED),
-            "centre_as": draw(st.sampled_from(["float", "float", "float", "arr0", "arr1"]))}
+            "centre_as": draw(st.sampled_from(["float", "float", "float", "arr0", "arr1", "f4", "f4arr1"]))}
 
 
 def _cap_result(name, r, n, get_radius):
@@ -237,6 +237,14 @@ def check_randcap(case, ctx):
         ra0, dec0 = np.array(ra0), np.array(dec0)
     elif how == "arr1":
         ra0, dec0 = np.array([ra0]), np.array([dec0])
+    elif how in ("f4", "f4arr1"):
+        # a centre stored in single precision: the float32 values ARE the centre (as for every float32 input)
+        a, b = np.float32(ra0), np.float32(dec0)
+        if float(a) >= 360.0:
+            a = np.float32(0.0)
+        case = dict(case, centre=[float(a), float(b)])
+        ra0, dec0 = (a, b) if how == "f4" else (np.array([a]), np.array([b]))
+        name = name + " [float32 centre]"
     r = _cap_result(name, must(co.randcap, n, ra0, dec0, rad, rng=_rng(case["rng"], case["seed"]), **kw), n,
                     case["get_radius"])
     _check_cap(name, r, case)
